@@ -585,7 +585,7 @@ func main() {
 			}
 		}
 	}
-	for i := 0; i < cfg.Scale(400, 20000); i++ {
+	for i := 0; i < cfg.Scale(400, 6000); i++ {
 		a := inEl{randHash(r, pool), vh.Pick(r, idx), nil, 0}
 		b := inEl{randHash(r, pool), vh.Pick(r, idx), nil, 0}
 		if i%3 == 0 { // same hash, or differing in exactly one byte
@@ -635,7 +635,7 @@ func main() {
 			}
 		}
 	}
-	for i := 0; i < cfg.Scale(300, 20000); i++ {
+	for i := 0; i < cfg.Scale(300, 6000); i++ {
 		a := outEl{Value: vh.Pick(r, amounts), Script: randScript(r)}
 		b := outEl{Value: vh.Pick(r, amounts), Script: randScript(r)}
 		if i%2 == 0 {
